@@ -326,7 +326,9 @@ func (r *floatIncAggReducer) Aggregate(p *ReducerEndpoint, param *ReducerParams)
 	r.prevStep = rangeEnd
 	if param.lastRec {
 		defer r.reset()
-		if param.step == 0 {
+		// no row of the last record lies in an evaluation window (step > range): rangeEnd was not computed,
+		// there is no step to pad from.
+		if param.step == 0 || len(param.intervalIndex) == 0 {
 			return
 		}
 		nextStep := rangeEnd + param.step
